@@ -185,6 +185,49 @@ func e2eCase(t *testing.T, c *E2ECase) {
 				run.Case(run.NewID(), fmt.Sprintf("D %s %d %d", m.Kind, typeID(m.ArtifactType), cfg), fmt.Sprintf("D %d", typeID(it.ArtifactType)))
 			}
 		}
+		// L lines: Referrers() through the tag schema = the model's list_referrers of the final index
+		for s := 0; s < c.NSubjects; s++ {
+			ents := "none"
+			if res.IndexTagged[s] != nil {
+				var es []string
+				for i, k := range res.IndexTagged[s] {
+					key := k + 1
+					if k == -1 {
+						key = 0
+					} else if k < 0 {
+						key = 999
+					}
+					es = append(es, fmt.Sprintf("%d:%d:0", key, typeID(res.IndexArts[s][i])))
+				}
+				ents = "-"
+				if len(es) > 0 {
+					ents = strings.Join(es, ",")
+				}
+			}
+			keysOfItems := func(l Listing) string {
+				var ks []string
+				for _, it := range l.Items {
+					switch {
+					case it.Digest == "":
+						ks = append(ks, "0")
+					case it.Man < 0:
+						ks = append(ks, "999")
+					default:
+						ks = append(ks, fmt.Sprint(it.Man+1))
+					}
+				}
+				if len(ks) == 0 {
+					return "-"
+				}
+				return strings.Join(ks, ",")
+			}
+			if res.Listings[s].Err == "" {
+				run.Case(run.NewID(), fmt.Sprintf("L 0 %s", ents), "L "+keysOfItems(res.Listings[s]))
+			}
+			if res.FilterType != "" && res.Filtered[s].Err == "" {
+				run.Case(run.NewID(), fmt.Sprintf("L %d %s", typeID(res.FilterType), ents), "L "+keysOfItems(res.Filtered[s]))
+			}
+		}
 		for s := 0; s < c.NSubjects; s++ {
 			if in, obs, ok := xLine(c, res, s); ok {
 				run.Case(run.NewID(), in, obs)
